@@ -90,6 +90,8 @@ def groupby_inputs_sorted(p: Project, modname: str, fn, rep: Report, rule: str, 
                 ex = Expander(fn)
                 gk = _key_signature(ex.x(kexpr), fn)
                 for sk in sort_keys:
+                    if sk is not None and text(ex.x(sk)) == text(ex.x(kexpr)) and isinstance(ex.x(sk), (ast.Name, ast.Attribute)):
+                        continue  # one and the same key function (whatever it extracts)
                     sks = _key_signature(ex.x(sk), fn) if sk is not None else None
                     if sks is None or not (sks == gk or (gk is not None and sks.startswith(gk))):
                         ok, why = False, f"sorted by {text(sk) if sk is not None else None} but grouped by {text(kexpr)}: the sort key does not refine the group key"
@@ -119,7 +121,7 @@ def _key_signature(k, fn) -> Optional[str]:
             if isinstance(st, ast.FunctionDef) and st.name == k.id and len(st.args.args) == 1:
                 rets = [r for r in own_nodes(st) if isinstance(r, ast.Return)]
                 if len(rets) == 1 and rets[0].value is not None:
-                    body, arg = rets[0].value, st.args.args[0].arg
+                    body, arg = Expander(st).x(rets[0].value), st.args.args[0].arg  # named temporaries looked through
     if body is not None:
         if isinstance(body, ast.Tuple) and body.elts:
             parts = [text(e) for e in body.elts]
@@ -357,7 +359,26 @@ def q_r3_dispatch(p: Project, schema: Schema, rep: Report):
         except Exception:
             pass
         brets = [r for r in own_nodes(builder) if isinstance(r, ast.Return) and isinstance(r.value, ast.Call)]
-        wcls = [p.resolve(CLIENT, text(r.value.func)) for r in brets]
+        def _wrapper_class(callnode, depth=2):
+            # the class a returned call constructs: a class name, or - through a private method that could not be
+            # inlined (it takes **kwargs) - the class that method is handed and calls
+            f_ = callnode.func
+            if isinstance(f_, ast.Attribute) and isinstance(f_.value, ast.Name) and f_.value.id == "self" and depth > 0:
+                h_ = ci.own_func(f_.attr)
+                if h_ is not None:
+                    hp_ = [a_.arg for a_ in h_.args.args][1:]
+                    for r_ in [x_ for x_ in own_nodes(h_) if isinstance(x_, ast.Return) and isinstance(x_.value, ast.Call)]:
+                        cf_ = r_.value.func
+                        if isinstance(cf_, ast.Name) and cf_.id in hp_:
+                            i_ = hp_.index(cf_.id)
+                            if i_ < len(callnode.args):
+                                return p.resolve(CLIENT, text(callnode.args[i_]))
+                            kw_ = next((k_.value for k_ in callnode.keywords if k_.arg == cf_.id), None)
+                            return p.resolve(CLIENT, text(kw_)) if kw_ is not None else None
+                        return _wrapper_class(r_.value, depth - 1)
+            return p.resolve(CLIENT, text(f_))
+
+        wcls = [_wrapper_class(r.value) for r in brets]
         members = [c.target for c in schema.spec(msgcls).values() if c.kind == "ListAggregate"] if isinstance(msgcls, ClassInfo) else []
         ok = bool(wcls) and all(w in members for w in wcls)
         rep.check("Q-R3", f"{tname}:{call.func.attr}->{text(msgexpr)}", ok, f"{call.func.attr}() builds {[getattr(w, 'name', w) for w in wcls]}, which {text(msgexpr)} does not accept as a list member: the request raises TypeError" if not ok else "", loc(p, rets[0]))
